@@ -94,7 +94,7 @@ package keeper
 // ---- perpetual orders -------------------------------------------------------------------------------
 
 //@ func (Keeper).GetPendingPerpetualOrdersForAddress
-//@ modifies nothing
+//@ modifies *pagination
 //@ frame-only
 
 //@ func (msgServer).UpdatePerpetualOrder
